@@ -62,7 +62,7 @@ var jsonTypes = []jsonType{
 
 func roundTrip(typ string, v reflect.Value) jsonCase {
 	line := map[string]any{"ev": "jsonrt", "type": typ, "mok": false, "uok": false, "eq": false, "same": false,
-		"rules": []string{}, "n": 0, "diff": ""}
+		"rules": []string{}, "n": 0, "diff": "", "fam": "none", "bin": "n/a"}
 	out := jsonCase{typ: typ, line: line}
 	var js []byte
 	var err error
@@ -85,4 +85,13 @@ func roundTrip(typ string, v reflect.Value) jsonCase {
 		line["same"] = string(js) == string(js2)
 	}
 	return out
+}
+
+// roundTripLim: the JSON round trip of a carrier of a limit value, with what the
+// binary codec does with the same carrier.
+func roundTripLim(typ string, v reflect.Value, lim limDesc) jsonCase {
+	jc := roundTrip(typ, v)
+	limFields(jc.line, lim)
+	jc.line["bin"] = binaryRoundTrip(v)
+	return jc
 }
